@@ -73,7 +73,8 @@ def kit():
     class Probe(Process):
         """no glob port: wired to the fixed node A/fix/s"""
         def ports_schema(self):
-            return {'s': {'n': {'_default': 0}}}
+            # (also declares the counter the sensors write to)
+            return {'s': {'n': {'_default': 0}}, 't': {'count': {'_default': 0}}}
 
         def next_update(self, ts, states):
             if CTX['eng'] is None:
@@ -84,8 +85,10 @@ def kit():
 
     class Sensor(Process):
         """lives in a compartment; reads the reference node of the colony the compartment is in"""
+        defaults = {'timestep': 1}
+
         def ports_schema(self):
-            return {'r': {'n': {'_default': 0}}}
+            return {'r': {'n': {'_default': 0}}, 't': {'count': {'_default': 0}}}
 
         def next_update(self, ts, states):
             eng = CTX['eng']
@@ -96,7 +99,10 @@ def kit():
                 col = here[0][0]
                 LOG.append(['sensor' + '/'.join(here[0]), CTX['tick'], states['r']['n'],
                             eng.state.get_path((col, 'ref', 's', 'n')).value])
-            return {}
+            # every invocation adds 1 to a counter OUTSIDE its compartment; the update falls due `ts` later and
+            # must be dropped if the compartment is gone by then
+            INVOKED.append([id(self), eng.global_time, ts])
+            return {'t': {'count': 1}}
 
     class Plain(Step):
         def ports_schema(self):
@@ -119,6 +125,8 @@ def kit():
             def next_update(self, ts, states):
                 i = self.k
                 self.k += 1
+                if not self.parameters['second']:
+                    CTX['tick'] = i
                 hist = self.parameters['hist']
                 second = self.parameters['second']
                 upd = {}
@@ -145,8 +153,9 @@ def live_update(col, ops):
 
     def comp(kind, ts=1):
         p, s, f, t = orig(kind, ts)
-        p['sns'] = kit()['Sensor']()
-        t['sns'] = {'r': ('..', 'ref', 's')}
+        p['sns'] = kit()['Sensor']({'timestep': STS[len(INVOKED_TS) % len(STS)] if SLOW[0] else 1})
+        INVOKED_TS.append(1)
+        t['sns'] = {'r': ('..', 'ref', 's'), 't': ('..', '..', 'tally')}
         return p, s, f, t
     struct.compartment = comp
     try:
@@ -156,6 +165,12 @@ def live_update(col, ops):
 
 
 TRACE = []
+PHASES = []
+INVOKED = []        # [sensor id, time of the invocation, timestep]
+INVOKED_TS = []
+STS = [1, 3, 2, 1, 2, 3, 1]
+SLOW = [False]
+BATCHES = []        # per batch: [global time, ids of the registered processes after it]
 
 
 @contextlib.contextmanager
@@ -169,23 +184,41 @@ def instrument():
             Store.build_topology_views)
     depth = [0]
 
-    def send_updates(self, update_tuples):
+    def send_updates(self, *args, **kwargs):
         TRACE.append(['SU'])
         try:
-            return orig[0](self, update_tuples)
+            return orig[0](self, *args, **kwargs)
         finally:
             TRACE.append(['SU_END'])
+            BATCHES.append([self.global_time, {id(p) for p in self.process_paths.values()}])
 
-    def run_steps(self):
+    def run_steps(self, *args, **kwargs):
         TRACE.append(['RS'])
-        return orig[1](self)
+        # exactly-once per phase for the kit's steps (they log their calls in struct.CALLS): a step that exists when
+        # the phase begins and still exists when it ends ran once; one created during the phase did not run
+        # (a step moved during the phase counts as removed under its old path and created under the new one)
+        before = {(p, id(x)) for p, x in self._step_paths.items()}
+        n0 = len(struct.CALLS)
+        r = orig[1](self, *args, **kwargs)
+        calls = [cid for kind, cid in struct.CALLS[n0:] if kind in 'DFG']
+        K = struct.kit()
+        kit_steps = (K['Drv'], K['Fst'], K['Fst2'])
+        for path, x in self._step_paths.items():
+            cid = id(x)
+            if (path, cid) not in before and cid in {i for _, i in before}:
+                continue          # moved during this phase: it may or may not have had its turn under the old path
+            want = 1 if (path, cid) in before else 0
+            if isinstance(x, kit_steps) and calls.count(cid) != want:
+                PHASES.append('step %s ran %d time(s) in a phase at whose start it %s' % (
+                    '/'.join(path), calls.count(cid), 'existed' if want else 'did not exist there'))
+        return r
 
-    def process_state(self, path):
+    def process_state(self, *args, **kwargs):
         TRACE.append(['I'])
-        return orig[2](self, path)
+        return orig[2](self, *args, **kwargs)
 
-    def apply_update(self, update, state):
-        r = orig[3](self, update, state)
+    def apply_update(self, *args, **kwargs):
+        r = orig[3](self, *args, **kwargs)
         TRACE.append(['A', bool(r)])
         return r
 
@@ -241,8 +274,12 @@ def segments(trace):
 
 def gen_case(rng):
     n = rng.randint(3, 8)
-    hist = struct.gen_history(rng, n, allow_bad=False,
-                              only_kinds=['generate', 'generate', 'add', 'delete', 'move', 'divide'])
+    # slow: the sensors get timesteps 1-3, so that their updates are in flight while the structure changes around
+    # them; such histories have no _move (moving a compartment with an update in flight is known finding K10)
+    slow = rng.random() < 0.5
+    hist = struct.gen_history(rng, n, allow_bad=False, only_kinds=(
+        ['generate', 'generate', 'add', 'delete', 'delete', 'divide'] if slow else
+        ['generate', 'generate', 'add', 'delete', 'move', 'divide']))
     # divisions with inheriting daughters run into the known findings K3/K8 under a live scheduler: explicit only
     for e in hist:
         for op in e[1]:
@@ -251,7 +288,11 @@ def gen_case(rng):
                     if d[1] is None:
                         d[1] = rng.randint(0, 3)
     return {'kind': 'live', 'hist': hist, 'director': rng.choice(['process', 'step']),
-            'refresh': sorted(rng.sample(range(n + 1), rng.randint(0, 2))), 'extra': 2}
+            'refresh': sorted(rng.sample(range(n + 1), rng.randint(0, 2))), 'extra': 2,
+            # how the engine is built: from its parts, or from a generated store with the initial children
+            # handed to Engine(store=..., initial_state=...)
+            'slow': slow, 'entry': rng.choice(['parts', 'parts', 'store']),
+            'more': {k: {'s': {'n': rng.randint(1, 9)}} for k in rng.sample(['i1', 'i2', 'i3'], rng.randint(1, 3))}}
 
 
 def run_impl(c):
@@ -263,7 +304,7 @@ def run_impl(c):
     processes = {'holder': K['Holder'](), 'obs_p': K['ObsP']({'name': 'obs_p'}), 'probe': K['Probe']()}
     steps, flow = {}, {}
     ab = {'A': ('A',), 'B': ('B',)}
-    topology = {'holder': dict(ab), 'obs_p': dict(ab), 'probe': {'s': ('A', 'fix', 's')}}
+    topology = {'holder': dict(ab), 'obs_p': dict(ab), 'probe': {'s': ('A', 'fix', 's'), 't': ('tally',)}}
     if step_dir:
         steps['a_dir'] = K['DirS'](dict(cfg, second=False))
         steps['b_dir'] = K['DirS'](dict(cfg, second=True))
@@ -287,21 +328,37 @@ def run_impl(c):
     out = {'status': 'ok'}
     try:
         del TRACE[:]
+        del PHASES[:]
+        del INVOKED[:]
+        del INVOKED_TS[:]
+        del BATCHES[:]
+        SLOW[0] = bool(c.get('slow'))
+        del struct.CALLS[:]
         with contextlib.redirect_stdout(io.StringIO()), instrument():
             CTX['tick'] = -1
-            eng = Engine(processes=processes, steps=steps, flow=flow, topology=topology, initial_state=init,
-                         display_info=False)
+            if c.get('entry') == 'store':
+                from vivarium.core.store import generate_state
+                store = generate_state(processes, topology, init, steps, flow)
+                eng = Engine(store=store, initial_state={'B': dict(c['more'])}, display_info=False)
+            else:
+                eng = Engine(processes=processes, steps=steps, flow=flow, topology=topology, initial_state=init,
+                             display_info=False)
             CTX['eng'] = eng
-            for tick in range(len(c['hist']) + c['extra']):
-                CTX['tick'] = tick
-                eng.update(1)
+            nticks = len(c['hist']) + c['extra']
+            # one non-forced call: the updates of the slower sensors stay in flight while the directors (timestep 1)
+            # change the structure around them
+            eng.run_for(nticks)
+            out['tally'] = [eng.state.get_path(('tally', 'count')).value,
+                            [list(x) for x in INVOKED], [[t, sorted(l)] for t, l in BATCHES]]
             eng.end()
     except Exception as e:
-        out['status'] = 'raised:%s:%s' % (type(e).__name__, str(e)[:160])
+        out['status'] = 'raised:%s:%s%s' % (type(e).__name__, '[still pending] ' if 'still pending' in str(e) else '',
+                                            str(e)[:160])
     finally:
         CTX['eng'] = None
     out['log'] = [list(x) for x in LOG]
     out['sends'] = segments(TRACE)
+    out['phases'] = list(PHASES)
     return out
 
 
@@ -316,11 +373,56 @@ def render(c, ob):
 
     def ev(e):
         return {'I': 'SInvoke', 'B': 'SBuild'}.get(e[0]) or '(SApply %s)' % cbool(e[1])
-    return clist(['(VSend %s %s %s %s)' % (cnat(b), clist([cnat(k) for k in ls]), clist([cbool(f) for f in fl]),
-                                          clist([ev(e) for e in obs])) for b, ls, fl, obs in ob['sends']])
+    return '(%s : list vcase)' % clist([
+        '(VSend %s %s %s %s)' % (cnat(b), clist([cnat(k) for k in ls]), clist([cbool(f) for f in fl]),
+                                 clist([ev(e) for e in obs])) for b, ls, fl, obs in ob['sends']])
+
+
+def oracle_raised(c, ob, rng):
+    """C10: the engine must survive the history"""
+    if ob['status'].startswith('raised'):
+        moved = any(op[0] == 'move' for e in c['hist'] for op in e[1])
+        if 'still pending' in ob['status'] and moved and c.get('slow'):
+            return [('moving a compartment with an update in flight: ' + ob['status'], 'move-in-flight')]
+        return [('the engine raised: ' + ob['status'], 'engine-raised')]
+    return []
+
+
+def oracle_phases(c, ob, rng):
+    """C10 / C05: every step that exists when a phase begins runs exactly once in it"""
+    if ob.get('phases'):
+        return [(ob['phases'][0], 'step-not-once-per-phase')]
+    return []
+
+
+def oracle_inflight(c, ob, rng):
+    """C01: the update of an invocation is applied exactly once when it falls due if its process is still live
+    then, and never if the process has been deleted before (updates in flight of deleted processes are dropped)"""
+    if 'tally' not in ob:
+        return []
+    got, invoked, batches = ob['tally']
+    times = [t for t, _ in batches]
+    sure = maybe = 0
+    for sid, t, ts in invoked:
+        due = t + ts
+        ks = [k for k, bt in enumerate(times) if abs(bt - due) < 1e-9]
+        if not ks:
+            continue                        # still in flight at the end of the run
+        k = ks[0]
+        before = k == 0 or sid in batches[k - 1][1]
+        after = sid in batches[k][1]
+        if before:
+            # registered when the update fell due: it is applied, even if another update of the same batch deletes
+            # the process (all updates of a batch were computed from the same committed state)
+            sure += 1
+    if not (sure <= got <= sure + maybe):
+        return [('the counter outside the compartments holds %d; %d sensor updates fell due while their process was '
+                 'live (+%d whose process was deleted in the same batch)' % (got, sure, maybe), 'inflight-update')]
+    return []
 
 
 def oracle(c, ob, rng):
+    """C07 / C04: what is handed out is the current hierarchy"""
     for who, tick, seen, actual in ob['log']:
         if seen != actual:
             return [('tick %d: %s is handed %r while the hierarchy holds %r' % (tick, who, seen, actual), 'stale-view')]
@@ -332,4 +434,4 @@ def nontrivial(c, ob):
 
 
 def stat_key(c, ob):
-    return 'live/%s/%s' % (c['director'], ob['status'].split(':')[0])
+    return 'live/%s/%s/%s' % (c.get('entry', 'parts'), c['director'], ob['status'].split(':')[0])
